@@ -211,6 +211,15 @@ def ramp(x, y, z, *, t, rate=30.0):
     return min(1.0, rate * t)
 
 
+def bump_field(x0, B=0.4):
+    """a factory of vector potentials (closures over x0): the field of a flux spot centred at (x0, 0).  Two parameters made
+    by it share their code and keyword arguments and differ only in the captured value."""
+    def spot(x, y, z):
+        w = B * np.exp(-((x - x0) ** 2 + y**2))
+        return np.stack([-w * y / 2, w * (x - x0) / 2, np.zeros_like(x)], axis=1)
+    return spot
+
+
 def eps_fun(r):
     return 1.0 - 0.2 * (r[0] > 0)
 
@@ -242,6 +251,9 @@ def drive_sets():
         dict(A=A * 2.0 + A, cur=cur_fun, eps=eps_fun),
         dict(A=R * A, cur={"source": 1.0, "drain": -1.0}, eps=1.0),
         dict(A=(R * A) * 0.5 + A, cur=None, eps=1.0),
+        # two operands made by one factory with different captured values, also under a time-dependent factor
+        dict(A=Parameter(bump_field(-1.0)) + Parameter(bump_field(1.2)), cur=None, eps=1.0),
+        dict(A=A * 0.5 + R * (Parameter(bump_field(-1.0)) - Parameter(bump_field(1.2))), cur={"source": 1.0, "drain": -1.0}, eps=1.0),
     ]
 
 
